@@ -211,6 +211,12 @@ type c09BCase struct {
 }
 
 func c09JudgeB(c c09BCase) (clause, detail string) {
+	chunked, mount := bVariant(&c.Ref)
+	pfx, hprefix := "", ""
+	if mount {
+		pfx, hprefix = "/dav", "/dav/"
+		c.Ref.Hrefs = prefixAll(c.Ref.Hrefs, pfx)
+	}
 	body := string(indep.Render(indep.CardReportEl(&c.Ref, c.ExplicitNo), c.Style))
 	if c.Old != "" {
 		if !strings.Contains(body, c.Old) {
@@ -226,10 +232,10 @@ func c09JudgeB(c c09BCase) (clause, detail string) {
 			return "generator-bug", fmt.Sprintf("writer/reader disagree: %s vs %s", js(chk), js(&ref))
 		}
 	}
-	l := c12LayoutFor("")
+	l := c12LayoutFor(pfx)
 	b := &harness.CardBackend{Principal: l.Principal, HomeSet: l.HomeSet, Books: []carddav.AddressBook{{Path: l.Coll1}},
-		Objects: []carddav.AddressObject{{Path: "/u/c/k1/o1.vcf", ETag: "e", Card: harness.SampleCard("s")}}}
-	resp := harness.Serve(&carddav.Handler{Backend: b}, harness.Req{Method: "REPORT", Path: l.Coll1, Header: map[string]string{"Content-Type": xmlContentTypes[len(body)%len(xmlContentTypes)], "Depth": "1"}, Body: body})
+		Objects: []carddav.AddressObject{{Path: pfx + "/u/c/k1/o1.vcf", ETag: "e", Card: harness.SampleCard("s")}}}
+	resp := harness.Serve(&carddav.Handler{Backend: b, Prefix: hprefix}, harness.Req{Method: "REPORT", Path: l.Coll1, Chunked: chunked, Header: map[string]string{"Content-Type": xmlContentTypes[len(body)%len(xmlContentTypes)], "Depth": "1"}, Body: body})
 	if resp.Panic != "" {
 		return "panic", resp.Panic
 	}
